@@ -235,6 +235,14 @@ def mutators(S):
     reg('plasma2.composition.clear', lambda r, c: 0 if c[Q]['composition'] else None, lambda L, v: L.plasma2.composition.clear(),
         lambda cfg, v: cfg[Q].__setitem__('composition', []))
 
+    # the integrator objects are public and mutable: a step changed in place must be seen by the materials built earlier
+    reg('plasma.integrator.step(in-place)', lambda r, c: _other(r, [0.1, 0.07, 0.05], c[P]['integrator_step']),
+        lambda L, v: setattr(L.plasma.integrator, 'step', v), setc(P, 'integrator_step'))
+    reg('beam.integrator.step(in-place)', lambda r, c: _other(r, [0.05, 0.04, 0.08], c[B]['integrator_step']),
+        lambda L, v: setattr(L.beam.integrator, 'step', v), setc(B, 'integrator_step'))
+    reg('laser.integrator.step(in-place)', lambda r, c: _other(r, [0.05, 0.04, 0.08], c[La]['integrator_step']),
+        lambda L, v: setattr(L.laser.integrator, 'step', v), setc(La, 'integrator_step'))
+
     # other legal container types for the same assignments
     reg('plasma.composition(tuple)', lambda r, c: _other(r, COMPS, c[P]['composition']),
         lambda L, v: setattr(L.plasma, 'composition', tuple(S.species_list(v))), setc(P, 'composition'))
